@@ -343,9 +343,13 @@ def still_fails(binp, cands, extra_args=()):
             return c, r, m, o
     return None
 
-def shrink(binp, line, r, m, o, rounds=40, extra_args=()):
+def shrink(binp, line, r, m, o, rounds=40, extra_args=(), budget_s=75):
+    """greedy shrinking, bounded in rounds and in wall-clock time (a replay need not be minimal)"""
     cur = (line, r, m, o)
+    t_end = time.time() + budget_s
     for _ in range(rounds):
+        if time.time() > t_end:
+            break
         nxt = still_fails(binp, shrink_candidates(cur[0]), extra_args)
         if nxt is None:
             break
